@@ -1,5 +1,5 @@
 (* Props/C11.v -- property theorems for C11 (insertEntry / deleteEntry). *)
-From PraatIO Require Import Tier.TierModel Tier.CtorProofs Tier.CropProofs Tier.InsertProofs.
+From PraatIO Require Import Tier.TierModel Tier.CtorProofs Tier.CropProofs Tier.InsertProofs Tier.Interval Tier.InsertPProofs.
 
 (* the model of IntervalTier.insertEntry (crop-lax matches, delete, append,
    sort, span update) equals the collision-policy specification on every
@@ -54,3 +54,33 @@ Proof.
   - rewrite IH; [reflexivity|]. intro Hi. apply H. right; exact Hi.
 Qed.
 Print Assumptions C11_delete_absent_raises.
+
+(* ---- point tiers: PointTier.insertEntry against the same policy (collision = a point at the same time) ---- *)
+
+(* no point at that time: the (trimmed) entry is added and nothing else changes, in every mode *)
+Theorem C11_point_insert_free t e m t' : collides_with t e = None -> insert_p t e m = Ok t' ->
+  Permutation.Permutation (pents t') (strip_p e :: pents t) /\ pname t' = pname t.
+Proof. exact (insert_p_free t e m t'). Qed.
+Print Assumptions C11_point_insert_free.
+
+Theorem C11_point_insert_error t e old : collides_with t e = Some old -> insert_p t e IError = Err CollisionError.
+Proof. exact (insert_p_error t e old). Qed.
+Print Assumptions C11_point_insert_error.
+
+(* 'replace' removes exactly the colliding point and inserts the new one *)
+Theorem C11_point_insert_replace t e old t' : collides_with t e = Some old -> insert_p t e IReplace = Ok t' ->
+  Permutation.Permutation (old :: pents t') (strip_p e :: pents t).
+Proof. exact (insert_p_replace t e old t'). Qed.
+Print Assumptions C11_point_insert_replace.
+
+(* 'merge' replaces it by one point at that time labelled old-new *)
+Theorem C11_point_insert_merge t e old t' : collides_with t e = Some old -> insert_p t e IMerge = Ok t' ->
+  Permutation.Permutation (old :: pents t') (mkP (ptime e) (join DASH [plabel old; strip (plabel e)]) :: pents t).
+Proof. exact (insert_p_merge t e old t'). Qed.
+Print Assumptions C11_point_insert_merge.
+
+(* afterwards the tier is in time order and its span has grown just enough to contain the new time (F7) *)
+Theorem C11_point_insert_order_and_span t e m t' : wf_ptier t -> pmin t <= pmax t -> insert_p t e m = Ok t' ->
+  wf_ptier t' /\ pmin t' = Z.min (pmin t) (ptime e) /\ pmax t' = Z.max (pmax t) (ptime e).
+Proof. exact (insert_p_order_and_span t e m t'). Qed.
+Print Assumptions C11_point_insert_order_and_span.
